@@ -25,7 +25,7 @@ func init() {
 	register(&Prop{
 		ID: "C04",
 		Rule: "values of every kind (Node, Way, Relation, Changeset, Note, User, Bounds, OSM, Change, Diff) generated from a seed with every optional field toggled independently (annotated way nodes, member orientation and nested nodes, updates, committed times, element bounds, top-level bounds inside OSM and inside every osmChange block, diff actions of every type), strings needing escapes; plus container shapes and flat records compared with the schema model; " +
-			"every value marshalled through a pointer and by value (same text required); references beyond 2^53; diff actions with any combination of element/old/new; " +
+			"every value marshalled through a pointer and by value (the property asked of both texts); references beyond 2^53; diff actions with any combination of element/old/new; " +
 			"non-trivial = every rt/names/attrs op; distinct = distinct op line",
 		Gen:       c04Gen,
 		Exec:      c04Exec,
@@ -355,43 +355,53 @@ func c04Exec(op string) (string, *Violation) {
 	case "rt":
 		seed, _ := strconv.ParseUint(f[2], 10, 64)
 		v := c04Value(f[1], seed)
+		// the property for one marshalled text: OSM element names (the root first), unmarshals to an equal value,
+		// the streaming scanner sees the same objects in document order
+		verify := func(data []byte, form string) (string, *Violation) {
+			if root, want := c04RootName(data), c04Roots[f[1]]; root != want {
+				return "root-name", &Violation{Signature: "xml-root-name-" + f[1] + form, Text: fmt.Sprintf("a %s marshals to a <%s> element, the OSM XML name is <%s>: %s", f[1], root, want, truncate(string(data), 300))}
+			}
+			back := c04Fresh(f[1])
+			if err := xml.Unmarshal(data, back); err != nil {
+				return "unmarshal-error", &Violation{Signature: "xml-unmarshal-error-" + f[1] + form, Text: err.Error() + "\n" + string(data)}
+			}
+			orig := c04Value(f[1], seed)
+			if !xgEqual(orig, back) {
+				return "differs", &Violation{Signature: c04Signature(f[1], orig, back) + form, Text: fmt.Sprintf("xml.Marshal then xml.Unmarshal of a %s does not return an equal value.\nmarshalled: %s\ndecoded:    %s", f[1], truncate(string(data), 1500), xgDump(back))}
+			}
+			want := c04Objects(back)
+			got, serr := c04Scan(data)
+			if serr != nil {
+				return "scan-error", &Violation{Signature: "xml-scan-error-" + f[1] + form, Text: serr.Error()}
+			}
+			if len(got) != len(want) {
+				return "scan-differs", &Violation{Signature: c04ScanSig(f[1], want, got) + form, Text: fmt.Sprintf("scanner yields %d objects, whole-document decode has %d.\n%s", len(got), len(want), truncate(string(data), 1200))}
+			}
+			for i := range got {
+				if !xgEqual(got[i], want[i]) {
+					return "scan-differs", &Violation{Signature: "xml-scan-differs-" + f[1] + form, Text: fmt.Sprintf("object %d from the scanner differs from the whole-document decode: %s vs %s", i, xgDump(got[i]), xgDump(want[i]))}
+				}
+			}
+			return "ok", nil
+		}
 		data, err := xml.Marshal(v)
 		if err != nil {
 			return "marshal-error", &Violation{Signature: "xml-marshal-error", Text: err.Error()}
 		}
-		// the marshalled text uses the OSM XML element names: the root first
-		if root, want := c04RootName(data), c04Roots[f[1]]; root != want {
-			return "root-name", &Violation{Signature: "xml-root-name-" + f[1], Text: fmt.Sprintf("a %s marshals to a <%s> element, the OSM XML name is <%s>: %s", f[1], root, want, truncate(string(data), 300))}
+		if out, viol := verify(data, ""); viol != nil {
+			return out, viol
 		}
-		// a value marshals like a pointer to it (encoding/xml finds a marshaler with a value receiver for both, one
-		// with a pointer receiver only for the pointer - and then names the element after the Go type)
+		// the value itself, not a pointer to it: encoding/xml finds a marshaler with a value receiver for both, one
+		// with a pointer receiver only for the pointer (and then falls back to reflection and names the element
+		// after the Go type). Where the two texts differ, the property is asked of the by-value text as well.
 		if rv := reflect.ValueOf(v); rv.Kind() == reflect.Ptr && !rv.IsNil() {
 			data2, err2 := xml.Marshal(rv.Elem().Interface())
-			if err2 != nil || !bytes.Equal(data, data2) {
-				return "value-form", &Violation{Signature: "xml-value-form-" + f[1], Text: fmt.Sprintf("a %s value marshals differently from a pointer to it (%v):\nvalue:   %s\npointer: %s", f[1], err2, truncate(string(data2), 300), truncate(string(data), 300))}
+			if err2 != nil {
+				return "marshal-error", &Violation{Signature: "xml-marshal-error-by-value", Text: err2.Error()}
 			}
-		}
-		back := c04Fresh(f[1])
-		if err := xml.Unmarshal(data, back); err != nil {
-			return "unmarshal-error", &Violation{Signature: "xml-unmarshal-error-" + f[1], Text: err.Error() + "\n" + string(data)}
-		}
-		orig := c04Value(f[1], seed)
-		if !xgEqual(orig, back) {
-			return "differs", &Violation{Signature: c04Signature(f[1], orig, back), Text: fmt.Sprintf("xml.Marshal then xml.Unmarshal of a %s does not return an equal value.\nmarshalled: %s\ndecoded:    %s", f[1], truncate(string(data), 1500), xgDump(back))}
-		}
-		// the streaming scanner sees the same objects, in document order
-		want := c04Objects(back)
-		got, serr := c04Scan(data)
-		if serr != nil {
-			return "scan-error", &Violation{Signature: "xml-scan-error-" + f[1], Text: serr.Error()}
-		}
-		if f[1] != "diff" || true {
-			if len(got) != len(want) {
-				return "scan-differs", &Violation{Signature: c04ScanSig(f[1], want, got), Text: fmt.Sprintf("scanner yields %d objects, whole-document decode has %d.\n%s", len(got), len(want), truncate(string(data), 1200))}
-			}
-			for i := range got {
-				if !xgEqual(got[i], want[i]) {
-					return "scan-differs", &Violation{Signature: "xml-scan-differs-" + f[1], Text: fmt.Sprintf("object %d from the scanner differs from the whole-document decode: %s vs %s", i, xgDump(got[i]), xgDump(want[i]))}
+			if !bytes.Equal(data, data2) {
+				if out, viol := verify(data2, "-by-value"); viol != nil {
+					return out, viol
 				}
 			}
 		}
